@@ -41,6 +41,8 @@ ASSUMPTIONS = [
     'the matrix polynomial is handed over as a fresh C-contiguous array or (1/3) as a transposed view X.T; after the call it must be bit-identical to what was passed (the equations are statements about the curve the caller holds)',
     'out= of the class methods (1/4 of the cases; cleared buffer or non-zero garbage): qr, qr_full, cholesky, eigh, eig fill the buffers; returned objects and buffer contents must both satisfy the predicates',
     'complex coefficient data: only eig handles it on this tree (complex l, Q); qr, qr_full, cholesky, lu, eigh, svd raise UFuncTypeError (float work arrays, formulas written with transposes): documented in notes/C08.md, not asserted',
+    'base-point classes for qr, qr_full, svd, cholesky, lu*, eigh:distinct, eig (2/9 of the cases each): neighbouring base points per direction A_0[p] = A_0[0] + h E_p, h in {1e-6, 1e-7, 1e-9} (different but numpy.allclose), and the whole matrix polynomial scaled by 2^-k, k in {30,40,50,60} (all entries < 1e-8); every predicate is relative to the magnitude of the data (zeroth coefficients relative to max|ref|)',
+    'tiny-magnitude class: the documented absolute thresholds qr(epsilon=1e-14), eigh/svd(epsilon=1e-8) are passed scaled by 2^-k; the factors of 2^-k B must be the exactly scaled factors of B to 1e-10 (metamorphic; not for eig, whose LAPACK eigenpair order and column signs are not scale-equivariant); qr with M >= N: k = 30 only while KF-qr-epsilon-ignored is open',
     'NumPy, SciPy/LAPACK are trusted',
 ]
 
